@@ -48,7 +48,7 @@ CONFIG = {
              "into namespaces that are empty or already hold other names / scrambled integers (one shared, or an "
              "equally pre-populated one per call); (multi) 2-3 different sources of one schema in one call - hand-written "
              "NeXML files over one label set that reuse the otus / otu ids (tax1, t1..tn) with a permuted id -> label "
-             "assignment, Newick and TAXA-less NEXUS documents - or the same source listed twice, as unnamed streams / "
+             "assignment, Newick documents, NEXUS documents over one label pool with and without TAXA blocks - or the same source listed twice, as unnamed streams / "
              "open files / paths / one path twice, with tree_offset 0-2 and all TreeArray configurations, through "
              "Tree.yield_from_files, TreeArray.read_from_files, TreeArray.read x n, TreeList.read x n.  x "
              "reader options accepted by every route of the schema (rooting, preserve_underscores, store_tree_weights, "
@@ -81,10 +81,10 @@ CONFIG = {
         "while the library under test still tokenizes \"[c]'a b'\" as the unquoted token \"'a\" (C20's finding, probed "
         "once per process), documents with a comment directly in front of a quoted token are skipped (class "
         "skipped:comment_glued_to_quoted_token(C20)); with C20's repair merged nothing is skipped",
-        "(multi) several sources in one call are compared with reading the same sources one after the other; for NEXUS "
-        "the sources have no TAXA blocks: on the unchanged library the single reader object of the NEXUS iterator keeps "
-        "the NTAX of an earlier file's TAXA block and refuses the new taxa of a later file without one "
-        "(UndefinedTaxonError) although TreeList.read x n reads them - reported to the coordinator, not asserted",
+        "(multi) several sources in one call are compared with reading the same sources one after the other; NEXUS "
+        "sources come with and without TAXA blocks, mixed.  The defect 'the one reader object of the NEXUS iterator keeps "
+        "the NTAX of an earlier source's TAXA block and refuses the new taxa of a later source without one' has the key "
+        "C13.multi:nexus_iterator_keeps_ntax_of_earlier_source of its own (repaired by the fix: commit on branch wt_c13)",
         "two reads of one text within one process (fresh namespace, a few hundred unrelated Annotation objects allocated "
         "and released in another order in between) must give identical, order-sensitive observations",
         "matrix rows are compared by taxon label (iteration order follows the namespace, which the data set route may "
@@ -988,6 +988,9 @@ def check_tree_array(run, n, sizes):
                          i, type(err).__name__, err, run.where()))
 
 
+NTAX_KEY = "C13.multi:nexus_iterator_keeps_ntax_of_earlier_source"
+
+
 @st.composite
 def multi_cases(draw, large=False):
     """2-3 DIFFERENT sources of one schema read in one call (or the same source listed twice)."""
@@ -1011,14 +1014,18 @@ def multi_cases(draw, large=False):
             gen = st.one_of(c13_docs.rich_newick_docs(max_taxa=5, max_trees=3), c13_docs.ultrametric_newick_docs(max_trees=3),
                             c13_docs.numeric_newick_docs(max_taxa=5, max_trees=3))
         else:
-            # no TAXA blocks: the one reader object of the NEXUS iterator keeps the NTAX of an earlier file's TAXA block
-            # when a later file has none and then refuses that file's new taxa (UndefinedTaxonError) although reading the
-            # files in turn works - observed on the unchanged library, reported, not asserted here
-            gen = st.one_of(c13_docs.ultrametric_newick_docs(max_trees=3, nexus=True),
-                            c13_docs.rich_nexus_docs(max_taxa=4, max_trees=2, max_blocks=2, max_chars=4, taxa=False))
+            gen = None
+            pool = draw(docs.label_sets(5))        # the sources draw their taxa from one pool
         docs_ = []
         for _ in range(nd):
-            d = draw(gen)
+            if gen is None:
+                # NEXUS sources with and without TAXA blocks, mixed inside one call
+                sub = draw(st.lists(st.sampled_from(pool), min_size=1, max_size=4, unique=True))
+                d = draw(st.one_of(c13_docs.ultrametric_newick_docs(max_trees=3, nexus=True),
+                                   c13_docs.rich_nexus_docs(max_trees=2, max_blocks=2, max_chars=4, labels=sub),
+                                   c13_docs.rich_nexus_docs(max_trees=2, max_blocks=2, max_chars=4, labels=sub)))
+            else:
+                d = draw(gen)
             fit_options(d, opts)
             docs_.append({"text": d["text"], "schema": d["schema"]})
     if plan["repeat"]:
@@ -1053,6 +1060,13 @@ def check_multi(ctx, case):
         return dendropy.TaxonNamespace(is_case_sensitive=bool(opts.get("case_sensitive_taxon_labels")))
 
     shared = new_ns() if plan["shared"] else None
+
+    def ntax_carry_over(e):
+        """input predicate of NTAX_KEY: NEXUS, a source with a TAXA block is followed by one without, and the iterator
+        refuses a taxon (UndefinedTaxonError / TooManyTaxaError)"""
+        has = ["BEGIN TAXA" in " ".join(d["text"].upper().split()) for d in docs_]
+        return schema == "nexus" and type(e).__name__ in ("UndefinedTaxonError", "TooManyTaxaError") and \
+            any(has[i] and not has[j] for i in range(len(has)) for j in range(i + 1, len(has)))
 
     def read_all(k=None, target=None):
         """the sources one after the other into ONE list; per-source slices"""
@@ -1092,6 +1106,12 @@ def check_multi(ctx, case):
             files = [s_.item(kd) for s_, kd in zip(srcs, kinds)]
             res, err = attempt(lambda: list(dendropy.Tree.yield_from_files(
                 files=files, schema=schema, **dict({"taxon_namespace": shared} if shared is not None else {}, **opts))))
+            if err is not None and ntax_carry_over(err):
+                ctx.cls("multi:nexus_ntax_carried_over")
+                ctx.fail("iterator_over_several_sources_equals_reading_them_in_turn", NTAX_KEY,
+                         "yield_from_files raised %s: %s on a later source without TAXA block after a source with one, "
+                         "although the sources read one after the other; %s" % (type(err).__name__, str(err)[:300], where()))
+                return
             if err is not None:
                 ctx.fail("iterator_over_several_sources_equals_reading_them_in_turn", "C13.multi:route_raises:yield_from_files:%s" % type(err).__name__,
                          "yield_from_files raised %s: %s although the sources read one after the other; %s" % (type(err).__name__, str(err)[:300], where()))
@@ -1147,6 +1167,10 @@ def check_multi(ctx, case):
                     ctx.check(err is not None and type(err) is type(want_err), "tree_array_over_several_sources",
                               "C13.multi:differs:%s:error" % route, lambda: "adding the listed trees raises %s but %s gave %r; %s" % (
                                   type(want_err).__name__, route, err, where()))
+                    continue
+                if err is not None and fn is in_one_call and ntax_carry_over(err):
+                    ctx.fail("tree_array_over_several_sources", NTAX_KEY, "%s raised %s: %s; %s" % (
+                        route, type(err).__name__, str(err)[:300], where()))
                     continue
                 if err is not None:
                     ctx.fail("tree_array_over_several_sources", "C13.multi:route_raises:%s:%s" % (route, type(err).__name__),
